@@ -361,7 +361,7 @@ def gen_input(rng, words, hot, max_len=2048, exotic=False, bulk=False, sizes=Non
 def env_vars(rng):
     """Process environment a result must not depend on."""
     out = {}
-    for k, choices in (("HOME", ["@scratch", "/nonexistent", "/root"]), ("TMPDIR", ["@scratch", "/tmp"]), ("USER", ["root", "analyst", "nobody"]),
+    for k, choices in (("HOME", ["@scratch", "@shared", "/nonexistent"]), ("TMPDIR", ["@scratch", "@shared"]), ("XDG_CACHE_HOME", ["@scratch", "@shared"]), ("USER", ["root", "analyst", "nobody"]),
                        ("LANG", ["C", "en_US.UTF-8", "de_DE.UTF-8", "tr_TR.UTF-8"]), ("TZ", ["UTC", "Asia/Tokyo", "America/St_Johns"]),
                        ("COLUMNS", ["40", "200"]), ("TERM", ["dumb", "xterm-256color"]), ("NO_COLOR", ["1"]), ("PYTHONUTF8", ["1"]),
                        ("APPDATA", ["C:\\Users\\victim\\AppData\\Roaming", "/srv/appdata"]), ("TEMP", ["C:\\Temp", "/var/tmp"]),
